@@ -103,6 +103,13 @@ NAMES = ["a", "b", "c"]
 # execution of steps (only ever called in forked children)
 # ---------------------------------------------------------------------------
 
+def _fa(f, key):
+    try:
+        return f[key]
+    except (TypeError, KeyError):
+        return getattr(f, key, None)
+
+
 def _parse_outcome(parser, script):
     try:
         ok = parser.parse(script)
@@ -159,7 +166,7 @@ class Actors:
             try:
                 fs = FiltersSet("r")
                 fs.from_parser_result(p)
-                return ("reload-load", str(fs), [f["name"] for f in fs.filters], [f["enabled"] for f in fs.filters],
+                return ("reload-load", str(fs), [_fa(f, "name") for f in fs.filters], [_fa(f, "enabled") for f in fs.filters],
                         sorted(fs.requires))
             except Exception as e:
                 return ("reload-load", "raised %s: %s" % (type(e).__name__, e))
